@@ -18,7 +18,7 @@ LEVEL_NOTE = ("Both server stacks: in-process (IdleReleaseDecorator + Persistenc
 DESIGN_REF = "§5 C36"
 RULE = "case = (program, idle_timeout, send schedule, store); distinct = hash of the scenario; non-trivial = a release happened and a later send reloaded the run"
 REQUIRED_REACH = ["scenario", "released_checked", "not_released_early_checked", "send_before_release_kept_in_memory", "reload_after_release", "finished_after_reload",
-                  "store_sqlite", "store_memory", "slow_store", "stack_inproc", "stack_dbos_sub"]
+                  "store_sqlite", "store_memory", "slow_store", "stack_inproc", "stack_dbos_sub", "idle_after_a_delayed_retry"]
 ASSUMPTIONS = ["DBOS half decided on the substitute-engine stack only (see level_note)"]
 
 
@@ -32,7 +32,14 @@ def gen_case(seed):
     from vf import idle_cases as ic
 
     rnd = random.Random(seed)
-    spec, keys = ic.gen_program(rnd)
+    if rnd.random() < 0.3:
+        # a step fails once and is retried after a delay while everything else already waits for the human: the run is busy only
+        # through the pending retry; once that is done it is idle like any other run
+        spec, keys = ic.gen_program(rnd, retry_delay=rnd.choice([0.3, 0.6, 1.5]))
+        for it in spec["steps"][0]["acts"][0]["items"]:
+            it["lat"] = [0]
+    else:
+        spec, keys = ic.gen_program(rnd)
     spec["sched_seed"] = seed
     return {"seed": seed, "spec": spec, "keys": keys, "I": rnd.choice([0.5, 1, 2, 5]), "mode": rnd.choice(["after", "after", "before_one", "before_one"]),
             "gap": rnd.choice([0.25, 1, 3]), "store": rnd.choice(["sqlite", "memory"]), "delta": rnd.choice([0.1, 0.25]),
@@ -50,6 +57,12 @@ def run_one(case, acc):
 
     t_idle = ic.idle_instant(case["spec"], case.get("store_latency"), case.get("stack", "inproc"))
     if t_idle is None:
+        ref = dict(ic.LAST_REFERENCE)
+        if ref.get("never_announced"):
+            V({"mech": "idle_run_never_announced_idle", "after_delayed_retry": case["spec"]["meta"].get("retry_delay") is not None},
+              f"reference run (no input for 60 virtual s): every wait registered and nothing executing or scheduled since vt={ref['quiet_since']}, but no WorkflowIdleEvent "
+              f"was published from then on (earlier announcements at {ref['announcements']}): the run can never be released", wit)
+            return
         acc.inconclusive.append(f"reference run never became idle seed={case['seed']}")
         return
     I, keys = case["I"], case["keys"]
@@ -73,6 +86,8 @@ def run_one(case, acc):
     if case.get("store_latency"):
         acc.hit("slow_store")
     acc.hit("stack_" + case.get("stack", "inproc"))
+    if case["spec"]["meta"].get("retry_delay") is not None:
+        acc.hit("idle_after_a_delayed_retry")
     wit["stack"] = case.get("stack", "inproc")
     obs, cs = ic.run_scenario(scn)
     acc.case()
